@@ -488,6 +488,9 @@ pub fn run_c08(cfg: &Cfg) -> Report {
     for k in 0..n {
         let idx = k * cfg.shards as u64 + cfg.shard as u64;
         c08_case(KINDS[(idx % 3) as usize], cfg.seed.wrapping_mul(7_368_787).wrapping_add(idx), &dir, &mut rep);
+        if rep.enough() {
+            break;
+        }
     }
     let _ = std::fs::remove_dir_all(&dir);
     rep
@@ -603,7 +606,7 @@ fn c09_case(kind: Kind, seed: u64, dir: &Path, rep: &mut Report) {
         let last = v;
         // every healthy subscriber converges on the last value, in order
         for (i, c) in healthy.iter_mut() {
-            let res = read_until(c, last, 20);
+            let res = read_until(c, last, 8);
             let seen = match res {
                 Ok(seen) => seen,
                 Err((RdErr::Timeout, seen)) => {
@@ -615,10 +618,10 @@ fn c09_case(kind: Kind, seed: u64, dir: &Path, rep: &mut Report) {
                     if alive && late.is_err() && c.unread() == 0 {
                         return Err((
                             "C09/real-sockets:healthy-subscriber-never-got-the-latest-value-after-another-client-vanished".into(),
-                            format!("subscriber {i} saw {seen:?}, the last value set is {last}; 23 s later the server answers a new client at once and nothing is waiting in the subscriber's socket"),
+                            format!("subscriber {i} saw {seen:?}, the last value set is {last}; 11 s later the server answers a new client at once and nothing is waiting in the subscriber's socket"),
                         ));
                     }
-                    return Err(inc(format!("subscriber {i} saw {seen:?} within 20 s, last value {last}; server alive: {alive}")));
+                    return Err(inc(format!("subscriber {i} saw {seen:?} within 8 s, last value {last}; server alive: {alive}")));
                 }
                 Err((RdErr::Closed, seen)) => return Err(("C09/real-sockets:healthy-connection-closed".into(), format!("subscriber {i} was disconnected after {seen:?}"))),
                 Err((RdErr::Io(e), seen)) => return Err(("C09/real-sockets:healthy-subscriber-got-a-wrong-frame".into(), format!("subscriber {i} after {seen:?}: {e}"))),
@@ -654,6 +657,9 @@ pub fn run_c09(cfg: &Cfg) -> Report {
     for k in 0..n {
         let idx = k * cfg.shards as u64 + cfg.shard as u64;
         c09_case(KINDS[(idx % 3) as usize], cfg.seed.wrapping_mul(5_915_587).wrapping_add(idx), &dir, &mut rep);
+        if rep.enough() {
+            break;
+        }
     }
     let _ = std::fs::remove_dir_all(&dir);
     rep
@@ -803,6 +809,9 @@ pub fn run_c10(cfg: &Cfg) -> Report {
     for k in 0..n {
         let idx = k * cfg.shards as u64 + cfg.shard as u64;
         c10_case(KINDS[(idx % 3) as usize], cfg.seed.wrapping_mul(3_141_593).wrapping_add(idx), &dir, &mut rep);
+        if rep.enough() {
+            break;
+        }
     }
     let _ = std::fs::remove_dir_all(&dir);
     rep
